@@ -24,8 +24,9 @@ def aq(name, defs, to=1200, weight=6):
 
 
 def _aq(name, defs, to, weight, n):
-    return Query(name, "adaptive/adaptive.c", U, defs=defs, stubs=["mem", "qsort"], checks="mem", unwind=60 + 30 * n, unwind_fn=UF, timeout=to,
-                 weight=weight, extra=["--max-field-sensitivity-array-size", "256"])
+    uf = {k: max(v, n + 2) for k, v in UF.items()}
+    return Query(name, "adaptive/adaptive.c", U, defs=defs, stubs=["mem", "qsort"], checks="mem", unwind=60 + 30 * n, unwind_fn=uf, timeout=to,
+                 weight=weight, extra=["--max-field-sensitivity-array-size", str(max(256, 40 + 30 * n))])
 
 
 def bitmap_arm(name, defs, to=900):
